@@ -803,6 +803,116 @@ def run_nuclide_sets(ctx):
     ctx.evaluations += len(req)
 
 
+# --------------------------------------------------------------------------- stream A5: re-mapping onto the SAME destination
+def run_restate(ctx):
+    """two- and three-step mappings onto the SAME destination assembly (setAssemblyStateFromOverlaps called again after the
+    source changed): in later steps the source becomes EXACTLY the parameter default (0.0) over whole destination blocks -
+    a value equal to the default is still a value and must overwrite the stale destination state, for every location kind"""
+    from armi.reactor.converters import uniformMesh
+
+    fx = fixtures()
+    UM = uniformMesh.UniformMeshGeometryConverter
+    names = [INT_P, INT_G, AVG_P, AVG_C, PEAK_P, INT_ARR]
+    req, chk = [], []
+    for _ in range(ctx.pick(20, 300)):
+        a0 = ctx.rng.choice(fx["assems"])
+        H = a0.getTotalHeight()
+        order = list(names)
+        ctx.rng.shuffle(order)
+        pm = uniformMesh.ParamMapper([], order, a0[0])
+        defaults = {n: pm.paramDefaults[n] for n in order}
+        srcmesh = [0.0] + [float(b.p.ztop) for b in a0]
+        mesh = gen_mesh(ctx.rng, H, srcmesh, ctx.rng.choice(["coarser", "coarser", "identical", "shifted", "finer"]))
+        assign_profiles(ctx.rng, a0, with_none=False)
+        for b in a0:      # step 1: everything non-default
+            for n in (INT_P, INT_G, AVG_P, AVG_C, PEAK_P):
+                if b.p[n] == 0.0:
+                    b.p[n] = 1.5
+        nucs = sorted(a0.getNuclides())[:1]
+        case0 = {"assembly": a0.getType(), "mode": "re-mapping onto the same destination", "blockParamNames": order,
+                 "source_mesh": srcmesh, "target_mesh": mesh}
+        try:
+            try:
+                dst = UM.makeAssemWithUniformMesh(a0, mesh[1:], paramMapper=pm, mapNumberDensities=True)
+            except Exception as e:  # noqa
+                ctx.fail("remap-raises-on-valid-mesh", "re-meshing onto a mesh spanning the same height succeeds", case0,
+                         observed=repr(e)[:300])
+                continue
+            blocks = list(a0)
+            for step in range(1, ctx.rng.randint(2, 3) + 1):
+                # the source turns to the exact default over whole destination cells (and over single source blocks)
+                zeroed = set()
+                for lo, hi in zip(mesh, mesh[1:]):
+                    if ctx.rng.random() < 0.45:
+                        zeroed |= {k for k, b in enumerate(blocks)
+                                   if overlap(float(b.p.zbottom), float(b.p.ztop), lo, hi) > 0.0}
+                zeroed |= {k for k in range(len(blocks)) if ctx.rng.random() < 0.15}
+                which = [n for n in order if ctx.rng.random() < 0.7] or [order[0]]
+                assign_profiles(ctx.rng, a0, with_none=False)
+                for k in zeroed:
+                    for n in which:
+                        blocks[k].p[n] = np.zeros(3) if n == INT_ARR else (defaults[n] if isinstance(defaults[n], (int, float)) else 0.0)
+                case = dict(case0, step=step, source_blocks_at_default=sorted(zeroed), params_at_default=which)
+                S = snap(a0, nucs)
+                try:
+                    UM.setAssemblyStateFromOverlaps(a0, dst, pm, mapNumberDensities=False)
+                except Exception as e:  # noqa
+                    ctx.fail("remap-raises-on-valid-mesh", "mapping a changed state onto the same destination succeeds", case,
+                             observed=repr(e)[:300])
+                    break
+                D = snap(dst, nucs)
+                if not kinds_ok(ctx, case, D):
+                    break
+                zb, zt, hh = geom(S)
+                dzb, dzt, dh = geom(D)
+                for name in order:
+                    for j in ([None] if name != INT_ARR else [0, 1, 2]):
+                        for ib, d in enumerate(D):
+                            exp = expected_param(name, S, d, j)
+                            if exp is None:
+                                continue
+                            got = d[name] if j is None or d[name] is None else d[name][j]
+                            scale = max([abs(s[name] if j is None else s[name][j]) for s in S if s[name] is not None] + [1e-300])
+                            if got is None or not (fclose(got, exp, 1e-11) or abs(got - exp) <= 1e-11 * scale):
+                                key = ("remap-default-valued-source-overwrites-stale-destination" if exp == 0.0
+                                       else "remap-restate-matches-current-source")
+                                ctx.fail(key, "after mapping again onto the same destination every parameter matches the CURRENT "
+                                         "source (a source value equal to the parameter default is still a value)",
+                                         dict(case, param=name, block=ib, index=j), observed=got, expected=exp)
+                        vals = [s[name] if (j is None or s[name] is None) else s[name][j] for s in S]
+                        dvals = [d[name] if (j is None or d[name] is None) else d[name][j] for d in D]
+                        req.append(f"remap {KIND[name]} {zb} {zt} {hh} {optlist(vals)} {dzb} {dzt} {dh}")
+                        chk.append((dict(case, param=name, index=j), dvals))
+                for nm in (INT_P, INT_G):
+                    t0, t1 = sum(s[nm] for s in S), sum(d[nm] for d in D)
+                    if not (fclose(t0, t1, 1e-11) or abs(t0 - t1) < 1e-9):
+                        ctx.fail("remap-restate-integrated-total", f"destination total of {nm} equals the current source total after "
+                                 "every re-mapping", case, observed=t1, expected=t0)
+                ctx.count("re-mapping steps onto the same destination (with default-valued source blocks)")
+                ctx.case(("restate", a0.getType(), tuple(mesh), step, tuple(sorted(zeroed)), tuple(which), _), nontrivial=True)
+        except common.Infra:
+            raise
+        except Exception as e:  # noqa
+            del req[len(chk):]
+            ctx.fail("remap-state-not-evaluable", "the mapped state can be read back and compared", case0, observed=repr(e)[:300])
+    model = lean_run("Mesh", req)
+    for (case, impl), line, rq in zip(chk, model, req):
+        ok = line not in ("reject", "bad-op")
+        if ok:
+            m = common.parse_list(line)
+            ok = len(m) == len(impl)
+            if ok:
+                for x, v in zip(m, impl):
+                    if x == "_":
+                        continue
+                    if v is None or not (relclose(v, x, 1e-9) or (float(Fraction(x)) == 0.0 and v == 0.0)):
+                        ok = False
+        if not ok:
+            ctx.disagree("Model/Mesh.lean vs setAssemblyStateFromOverlaps (re-mapping onto the same destination)",
+                         dict(case, request=rq[:400]), line[:400], str(impl)[:400])
+    ctx.evaluations += len(req)
+
+
 # --------------------------------------------------------------------------- stream A': near-coincident points
 def run_near(ctx):
     from armi.reactor.converters import uniformMesh
@@ -1234,6 +1344,7 @@ def run(ctx):
     run_assemblies(ctx)
     run_none_patterns(ctx)
     run_nuclide_sets(ctx)
+    run_restate(ctx)
     run_repeated(ctx)
     run_near(ctx)
     ctx.rule = ("assembly stream: (fixture assembly type, source mesh, target mesh, profile mode) with target meshes "
@@ -1242,7 +1353,9 @@ def run(ctx):
                 "plain / with None / negative peaks / constant / exact zeros, chained 1-3 deep and mapped back; unset-value patterns "
                 "(first / middle / last overlapped source block unset, per parameter independently) x lists of 2-4 mapped "
                 "parameters in every listing order; neighbouring blocks with different nuclide sets (nuclides removed per block) "
-                "under meshes cutting across every interface, atoms checked over the union of source nuclides; repeated "
+                "under meshes cutting across every interface, atoms checked over the union of source nuclides; two- and three-step "
+                "re-mappings onto the SAME destination where the source turns to the exact parameter default over whole "
+                "destination blocks (every location kind, every listing order); repeated "
                 "application: 10-30 successive re-meshings of one state compared with the ORIGINAL totals after every "
                 "step; non-trivial = target mesh differs from the source mesh. Direct streams: distinct generated inputs "
                 "of _filterMesh (random and clustered candidates/anchors, corpus of hand-written cases, both preferences) "
